@@ -164,7 +164,14 @@ RebroadcastOnce(m, act, post, a) ==
 MergeSilent(act, post) == act.a \in {"merge", "join"} => post.rb = <<>>   \* (join: user events / queries; the join intent is not listed)
 OnlyEcho(act, post) == act.a \in {"ev", "qry"} => (Len(post.rb) <= 1 /\ Range(post.rb) \subseteq {MsgOf(act)})
 
-\* C14: after a restart nothing at or below the newest recorded time is delivered
+\* C14: after a restart nothing at or below the newest recorded time is delivered.  "Recorded in the snapshot before
+\* the restart": what the snapshot file holds when the new instance starts (read by the harness) and, for a graceful
+\* restart (Shutdown hands every delivered event to the snapshotter and flushes), at least the newest time delivered
+\* before it -- a time the snapshotter wrote and later lost (e.g. in a compaction) still counts as recorded.
+MaxT(a, b) == IF Lt(a, b) THEN b ELSE a
+RECURSIVE Newest(_, _)
+Newest(nd, dl) == IF dl = <<>> THEN nd
+                  ELSE Newest([nd EXCEPT ![Head(dl)[1]] = IF Head(dl)[2] > 0 THEN MaxT(@, Head(dl)[2]) ELSE @], Tail(dl))
 NoOld(post, k, r) == r >= 0 => \A i \in DOMAIN post.dl : post.dl[i][1] = k => Lt(r, post.dl[i][2])
 
 EventClauses == {"C05_event_delivered_twice", "C05_fresh_event_not_delivered", "C04_event_rebroadcast_twice",
@@ -178,19 +185,23 @@ Clauses(m, act, pre, post) ==
   \cup (IF MergeSilent(act, post)               THEN {} ELSE {"C04_merge_rebroadcast"})
   \cup (IF act.a # "ev" \/ OnlyEcho(act, post)  THEN {} ELSE {"C04_event_foreign_message_queued"})
   \cup (IF act.a # "qry" \/ OnlyEcho(act, post) THEN {} ELSE {"C04_query_foreign_message_queued"})
-  \cup (IF NoOld(post, 1, post.re)              THEN {} ELSE {"C14_old_event_delivered_after_restart"})
-  \cup (IF NoOld(post, 2, post.rq)              THEN {} ELSE {"C14_old_query_delivered_after_restart"})
+  \cup (IF NoOld(post, 1, m.c14[1])             THEN {} ELSE {"C14_old_event_delivered_after_restart"})
+  \cup (IF NoOld(post, 2, m.c14[2])             THEN {} ELSE {"C14_old_query_delivered_after_restart"})
 
 \* tag "witnessed_max": a message carrying time MAX (= 2^64-1) has been processed (per clock)
 TopIn(act, post, k) == \E e \in RecvOf(act, post) : e[1] = k /\ e[2] = MAX
 
 \* sn = 1: the node runs with a snapshot, so its first start already is a "restart" with nothing recorded (cut-off 1)
-MonNew(sn) == [bad |-> {}, delv |-> {}, rcv |-> {}, rbs |-> {}, cut |-> sn, topE |-> FALSE, topQ |-> FALSE]
+\* nd = newest event / query time delivered so far (what a flushed snapshot has recorded), c14 = the C14 cut-offs
+MonNew(sn) == [bad |-> {}, delv |-> {}, rcv |-> {}, rbs |-> {}, cut |-> sn, topE |-> FALSE, topQ |-> FALSE,
+               nd |-> <<-1, -1>>, c14 |-> <<-1, -1>>]
 MonStep(m, act, pre, post) ==
   IF act.a = "restart" THEN
      [ m EXCEPT !.delv = { e \in @ : LET r == IF e[1] = 1 THEN post.re ELSE post.rq IN r >= 0 /\ ~Lt(r, e[2]) },
                 !.rbs = {},
-                !.cut = Wrap((IF post.re < 0 THEN 0 ELSE post.re) + 1) ]
+                !.cut = Wrap((IF post.re < 0 THEN 0 ELSE post.re) + 1),
+                !.c14 = IF act.crash = 0 THEN <<MaxT(post.re, m.nd[1]), MaxT(post.rq, m.nd[2])>> ELSE <<post.re, post.rq>>,
+                !.nd = IF act.crash = 0 THEN @ ELSE <<post.re, post.rq>> ]
   ELSE
      [ bad  |-> m.bad \cup Clauses(m, act, pre, post),
        delv |-> m.delv \cup Range(post.dl),
@@ -198,7 +209,9 @@ MonStep(m, act, pre, post) ==
        rbs  |-> m.rbs \cup (IF act.a \in {"ev", "qry"} THEN Range(post.rb) ELSE {}),
        cut  |-> CutAfter(m, act),
        topE |-> m.topE \/ TopIn(act, post, 1),
-       topQ |-> m.topQ \/ TopIn(act, post, 2) ]
+       topQ |-> m.topQ \/ TopIn(act, post, 2),
+       nd   |-> Newest(m.nd, post.dl),
+       c14  |-> m.c14 ]
 
 TagsFor(m, cl) == IF (cl \in EventClauses /\ m.topE) \/ (cl \notin EventClauses /\ m.topQ)
                     THEN {"witnessed_max"} ELSE {}
